@@ -647,7 +647,10 @@ impl Composite for Coerce {
             Self::NoOp(x) => Ok(Self::NoOp(x)),
             Self::IntoAssets(x) => Ok(Self::NoOp(x.into_assets()?)),
             Self::IntoDatum(x) => Ok(Self::NoOp(x.into_datum()?)),
-            Self::IntoScript(x) => todo!(),
+            Self::IntoScript(x) => Err(Error::InvalidUnaryOp(
+                "into_script".to_string(),
+                format!("{x:?}"),
+            )),
         }
     }
 }
